@@ -269,7 +269,7 @@ def replay_stats(chk, h, consts):
   if [int(x) for x in hist.result().hist] != list(h['hist']):
     chk.violation('stats:histogram', f'[{desc}] histogram {list(hist.result().hist)}, definition gives {h["hist"]}', ctx)
   vals = [v for b in clean for v in b]
-  if vals and min(vals) >= 0:
+  if vals:
     mm = agg.MinMaxAndCount()
     for b in clean:
       if b:
@@ -408,6 +408,20 @@ def body(chk):
     replay_stats(chk, h, sc)
     chk.replayed()
   chk.count('stat_streams', len(hs))
+  # the same with negative values (cfg files cannot hold negative numbers: the constants come from the MC wrapper)
+  sc_neg = dict(Values='<- mc_Values', NaN=99, MaxBatches=2, MaxLen=2, Lo='<- mc_Lo', Hi=3, Bins=2)
+  neg_defs = dict(mc_Values='{-3, -1, 2}', mc_Lo='-3')
+  mcn = tlc.run('algebra', 'Stats', tlc.cfg_text(constants=sc_neg, invariants=slaws, deadlock=False), mc_defs=neg_defs, timeout=1800)
+  chk.add_tlc(mcn, 'Stats/MC/negative values')
+  if not mcn.ok:
+    chk.machinery_failure(f'Stats.tla (negative values) violates {mcn.error_name}')
+  genn = tlc.run('algebra', 'Stats', tlc.cfg_text(constants=sc_neg, invariants=['Emit'], deadlock=False), mc_defs=neg_defs, workers=1, timeout=1800)
+  if not genn.ok:
+    chk.machinery_failure(f'Stats export (negative values) failed: {genn.error_name}')
+  for h in genn.histories:
+    replay_stats(chk, h, dict(sc, Lo=-3, Hi=3))
+    chk.replayed()
+  chk.count('stat_streams_negative_values', len(genn.histories))
   # the same streams pairwise as 2-column inputs (same batch lengths)
   by_shape = {}
   for h in hs:
